@@ -10,7 +10,7 @@ use e57::E57Reader;
 use explore::Ctx;
 
 const P: &str = "C16";
-const ERR_KINDS: [std::io::ErrorKind; 4] = [std::io::ErrorKind::Other, std::io::ErrorKind::Interrupted, std::io::ErrorKind::UnexpectedEof, std::io::ErrorKind::WouldBlock];
+const ERR_KINDS: [std::io::ErrorKind; 6] = [std::io::ErrorKind::Other, std::io::ErrorKind::Interrupted, std::io::ErrorKind::UnexpectedEof, std::io::ErrorKind::WouldBlock, std::io::ErrorKind::TimedOut, std::io::ErrorKind::WriteZero];
 
 fn writer_program(ctx: &Ctx) -> Program {
     let kind = ctx.pick("program-kind", 3);
@@ -175,13 +175,17 @@ pub fn writer_continue(ctx: &Ctx) {
     }
     let nops = h.with(|s| s.ops) as usize;
     let k = ctx.pick("fault-at-device-op", nops);
-    let errkind = ERR_KINDS[ctx.pick("error-kind", 2)];
-    ctx.describe(|| format!("{}: {} device operations, injected {errkind:?} error at operation {k}; the caller continues with the remaining calls and tries finalize twice", describe(&p), nops));
+    let errkind = ERR_KINDS[ctx.pick("error-kind", ERR_KINDS.len())];
+    // the device transfers in full or in halves (a fault in the middle of a page write leaves the
+    // device position inside the page)
+    let chunk = [Chunk::Full, Chunk::AlwaysHalf][ctx.pick("device-chunking", 2)];
+    ctx.describe(|| format!("{}: {} device operations, injected {errkind:?} error at operation {k} (device transfers {chunk:?}); the caller continues with the remaining calls and tries finalize three times", describe(&p), nops));
     let res = guarded(|| {
         let dev = Dev::empty();
         dev.with(|s| {
             s.fault_at = Some(k as u64);
             s.fault_errkind = errkind;
+            s.chunk = chunk;
         });
         let h = dev.handle();
         let mut w = match e57::E57Writer::new(dev, &p.guid) {
@@ -200,7 +204,7 @@ pub fn writer_continue(ctx: &Ctx) {
         }
         let mut attempts = 0;
         let mut fin = false;
-        while attempts < 2 && !fin {
+        while attempts < 3 && !fin {
             attempts += 1;
             fin = w.finalize().is_ok();
         }
